@@ -380,6 +380,83 @@ func c07Case(c *rt.Ctx, sub int, t reflect.Type, fdesc string, doc []byte, seed 
 	}
 }
 
+// c07AllocEdge: documents whose private copy (len+1 bytes) exactly fills a Go allocation size
+// class and which end in a construct that makes a scanner look ahead (a high surrogate escape, a
+// pair, a short escape, a multi-byte character, a backslash-quote, a number, a literal). A scanner
+// that forms a pointer or reads past the end of the copy is stopped by checkptr / ASan in those
+// variants; in every variant the result is compared with encoding/json's.
+func c07AllocEdge(c *rt.Ctx, sub0 int) {
+	bsl := "\\"
+	tails := []string{bsl + "ud83d", bsl + "ud83d" + bsl + "ude00", bsl + "udbff" + bsl + "udfff", bsl + "ud800" + bsl + "u0041", bsl + "u00e9", bsl + "u0000", bsl + "n", bsl + bsl, bsl + `"`, bsl + "/",
+		"é", "\xe2\x82\xac", "\xf0\x9f\x98\x80", "x", bsl + "ud83d" + bsl + "n", bsl + "udc00", bsl + "ud83d" + bsl + "ud83d"}
+	classes := []int{8, 16, 24, 32, 48, 64, 80, 96, 112, 128, 144, 160, 176, 192, 208, 224, 240, 256, 288, 320, 352, 384, 416, 448, 480, 512, 576, 640, 704, 768, 896, 1024, 1152, 1280, 1408, 1536, 1792, 2048}
+	type dst struct {
+		name string
+		mk   func() any
+	}
+	forms := []struct {
+		pre, post string
+		dsts      []dst
+	}{
+		{`"`, `"`, []dst{{"string", func() any { return new(string) }}, {"any", func() any { return new(any) }}}},
+		{`["`, `"]`, []dst{{"[]string", func() any { return new([]string) }}, {"any", func() any { return new(any) }}, {"[1]string", func() any { return new([1]string) }}}},
+		{`{"k":"`, `"}`, []dst{{"struct{K string}", func() any { return new(struct{ K string }) }}, {"map[string]string", func() any { return new(map[string]string) }}, {"struct{}", func() any { return new(struct{}) }},
+			{"struct{K RawMessage}", func() any { return new(struct{ K gojson.RawMessage }) }}}},
+		{`{"`, `":1}`, []dst{{"map[string]int", func() any { return new(map[string]int) }}, {"struct{K int}", func() any { return new(struct{ K int }) }}, {"any", func() any { return new(any) }}}},
+		{`{"k":["`, `"]}`, []dst{{"struct{K []string}", func() any { return new(struct{ K []string }) }}, {"struct{X int}", func() any { return new(struct{ X int }) }}}},
+	}
+	sub := sub0
+	n := 0
+	for _, S := range classes {
+		for ti, tail := range tails {
+			for fi, f := range forms {
+				// the copy is len(doc)+1 bytes: len(doc) = S-1 (and S, S-2: the neighbours)
+				for _, total := range []int{S - 1, S, S - 2} {
+					pad := total - len(f.pre) - len(tail) - len(f.post)
+					if pad < 0 {
+						continue
+					}
+					doc := []byte(f.pre + strings.Repeat("p", pad) + tail + f.post)
+					if !c.Cur(sub, fmt.Sprintf("shapes=core\nalloc-edge doc of %d bytes ending in %q form %d", len(doc), tail, fi)) {
+						sub++
+						continue
+					}
+					for _, d := range f.dsts {
+						for mode := 0; mode < 2; mode++ {
+							g, s := d.mk(), d.mk()
+							var gerr error
+							pan, msg, _ := rt.Guard(func() {
+								if mode == 0 {
+									gerr = gojson.Unmarshal(doc, g)
+								} else {
+									gerr = gojson.NewDecoder(bytes.NewReader(doc)).Decode(g)
+								}
+							})
+							c.Eval(1)
+							n++
+							serr := stdjson.Unmarshal(doc, s)
+							ctx := fmt.Sprintf("tail%d:%s:%s", ti, d.name, []string{"buffer", "stream"}[mode])
+							switch {
+							case pan:
+								c.Violate(rt.Violation{Monitor: "alloc-edge", Entry: "decode", Kind: "panic:" + rt.PanicClass(msg), Ctx: ctx, Detail: msg + " | doc " + rt.Q(doc), Sub: sub})
+							case (gerr != nil) != (serr != nil):
+								c.Violate(rt.Violation{Monitor: "alloc-edge", Entry: "decode", Kind: "verdict-differs", Ctx: ctx, Detail: fmt.Sprintf("doc %s (%d bytes): go-json %v encoding/json %v", rt.Q(doc), len(doc), gerr, serr), Sub: sub})
+							case serr == nil && !reflect.DeepEqual(g, s):
+								gb, _ := stdjson.Marshal(g)
+								sb, _ := stdjson.Marshal(s)
+								c.Violate(rt.Violation{Monitor: "alloc-edge", Entry: "decode", Kind: "value-differs", Ctx: ctx, Detail: fmt.Sprintf("doc %s (%d bytes): go-json %s encoding/json %s", rt.Q(doc), len(doc), gb, sb), Sub: sub})
+							}
+						}
+					}
+					sub++
+				}
+			}
+		}
+	}
+	c.Obs("alloc_edge_decodes", int64(n))
+	c.NonTrivialEnum(int64(sub - sub0))
+}
+
 func init() {
 	register(&Prop{
 		ID: "C07",
@@ -439,6 +516,9 @@ func init() {
 				}
 				for _, d := range descs {
 					c.SetAdd("field_shapes", shapeOnly(d))
+				}
+				if k == 11 && c.Idx%64 == 0 {
+					c07AllocEdge(c, 100000)
 				}
 				if k == 0 {
 					c.Sample(map[string]any{"type": t.String(), "docs": len(docs), "example_doc": docs[len(docs)/2][0], "fields": descs})
